@@ -140,7 +140,7 @@ def dof_components(basis, dim, vector):
 
 def exec_solve(rec):
     import skfem
-    from skfem import Basis, FacetBasis, BilinearForm, LinearForm, condense, solve
+    from skfem import Basis, FacetBasis, BilinearForm, LinearForm, condense, enforce, solve
     from skfem.helpers import dot
     from skfem.models.poisson import laplace, mass
     from skfem.models.elasticity import linear_elasticity
@@ -148,7 +148,8 @@ def exec_solve(rec):
     kind, deg, S, vector = SOLVE_ELEMS[name]
     dim = len(rec['p'])
     polys = [p_from_terms(T) for T in rec['poly']]
-    ev = {'a': 'Solve', 'problem': rec['problem'], 'bc': rec['bc'], 'elem': name, 'dim': dim, 'S': S,
+    ev = {'a': 'Solve', 'problem': rec['problem'], 'bc': rec['bc'], 'dform': rec.get('dform', 'view'),
+          'method': rec.get('method', 'condense'), 'elem': name, 'dim': dim, 'S': S,
           'poly': [p_terms(P, dim) for P in polys], 'loc': [], 'comp': [], 'x': [], 'err': '', 'ndir': 0}
 
     def run():
@@ -198,13 +199,25 @@ def exec_solve(rec):
             exact = lambda x: p_eval(P, x)
         if len(Dfac):
             D = basis.get_dofs(Dfac)
+            # the Dirichlet set is handed to condense / enforce in every accepted FORM: a DofsView, an index array,
+            # a dict of the DofsViews of several boundary parts (adjacent or overlapping: they share DOFs), or I=
+            form = rec.get('dform', 'view')
+            kw = {'D': D}
+            if form == 'array':
+                kw = {'D': D.flatten()}
+            elif form in ('dict', 'dict_overlap'):
+                kw = {'D': {'part%d' % k: basis.get_dofs(bf[np.array(part, dtype=np.int64)])
+                            for k, part in enumerate(rec['dparts'])}}
+            elif form == 'I':
+                kw = {'I': basis.complement_dofs(D)}
+            reduce_ = enforce if rec.get('method') == 'enforce' else condense
             if kind == 'wedge':                                             # FacetBasis is not available for prisms:
                 xD = basis.zeros()                                          # nodal values of the data on the DOFs the
                 dd = D.flatten()                                            # library returned
                 xD[dd] = exact(basis.doflocs[:, dd])
             else:
                 xD = FacetBasis(m, e, facets=Dfac).project(exact)           # boundary projection of the data
-            x = solve(*condense(A, b, x=xD, D=D))
+            x = solve(*reduce_(A, b, x=xD, **kw))
             nd = len(D.flatten())
         else:
             x = solve(A, b)
@@ -279,6 +292,7 @@ def execute(rec):
 
 def scenario(sid, rec):
     tags = {'kind': rec['kind'], 'family': rec['family'], 'elem': rec['elem'], 'driver': rec['driver'],
+            'dform': rec.get('dform', ''), 'method': rec.get('method', ''),
             'problem': rec.get('problem', 'project'), 'region': rec.get('region', ''), 'curved': 1 if rec.get('curved') else 0}
     return {'id': sid, 'recipe': rec, 'tags': tags, 'events': execute(rec)}
 
@@ -337,7 +351,7 @@ def generate(tier, seed):
     rng = np.random.default_rng(seed + 6)
     recs = []
     cache = {}
-    nrep = 20 if th else 3
+    nrep = 20 if th else 6
     for rep in range(nrep):
         for name, (kind, deg, S, vector) in SOLVE_ELEMS.items():
             if (kind, rep) not in cache:
@@ -365,7 +379,27 @@ def generate(tier, seed):
                         k = int(rng.integers(1, max(2, nb // 2 + 1)))
                         dsel = sorted(int(j) for j in rng.permutation(nb)[:k])
                     poly = [p_terms(p_rand(dim, d, rng), dim) for _ in range(dim if vector else 1)]
+                    # form in which the Dirichlet set reaches condense / enforce; boundary parts of the dict forms
+                    # are a random assignment of the Dirichlet facets (adjacent parts meet at shared DOFs), the
+                    # overlapping variant additionally repeats facets in two parts
+                    forms = ['view', 'array', 'I', 'dict', 'dict_overlap']
+                    form = forms[(rep + len(recs)) % len(forms)] if rep < 5 else forms[int(rng.integers(0, 5))]
+                    if rep % 3 == 1:
+                        form = 'dict'
+                    if rep % 3 == 2:
+                        form = 'dict_overlap'
+                    method = 'enforce' if (len(recs) + rep) % 2 else 'condense'
+                    dparts = []
+                    if form in ('dict', 'dict_overlap') and dsel:
+                        npart = min(len(dsel), int(rng.integers(2, 4)))
+                        assign = rng.integers(0, npart, len(dsel))
+                        assign[:npart] = np.arange(npart)
+                        dparts = [[dsel[j] for j in range(len(dsel)) if assign[j] == k] for k in range(npart)]
+                        if form == 'dict_overlap':
+                            for k in range(npart):
+                                dparts[k] = sorted(set(dparts[k]) | {dsel[int(rng.integers(0, len(dsel)))]})
                     r = {'driver': 'solve', 'kind': kind, 'family': fam, 'elem': name, 'problem': prob, 'bc': mode,
+                         'dform': form if dsel else 'view', 'method': method, 'dparts': dparts,
                          'p': np.asarray(p).astype(int).tolist(), 't': np.asarray(t).astype(int).tolist(),
                          'poly': poly, 'dir': dsel}
                     if prob == 'reaction':
